@@ -142,12 +142,93 @@ class FileInfo:
     pass
 
 
+def _loop_range(f):
+    """`for (v = c0; v < c1; v++)` (also `<=`, `++v`, `v += 1`) => (v, c0, c1 exclusive); None if the loop has another shape"""
+    inner = f.get("inner", [])
+    if len(inner) != 5:
+        return None
+    init, _cv, cond, inc, _body = inner
+    if not (isinstance(init, dict) and isinstance(cond, dict) and isinstance(inc, dict)):
+        return None
+    init, cond, inc = _unwrap(init), _unwrap(cond), _unwrap(inc)
+    if not (init.get("kind") == "BinaryOperator" and init.get("opcode") == "="):
+        return None
+    v = _unwrap(init["inner"][0])
+    lo = _const(init["inner"][1])
+    if v.get("kind") != "DeclRefExpr" or lo is None:
+        return None
+    name = v["referencedDecl"]["name"]
+    if not (cond.get("kind") == "BinaryOperator" and cond.get("opcode") in ("<", "<=")):
+        return None
+    cv = _unwrap(cond["inner"][0])
+    hi = _const(cond["inner"][1])
+    if cv.get("kind") != "DeclRefExpr" or cv["referencedDecl"]["name"] != name or hi is None:
+        return None
+    if cond["opcode"] == "<=":
+        hi += 1
+    ok = False
+    if inc.get("kind") == "UnaryOperator" and inc.get("opcode") == "++":
+        iv = _unwrap(inc["inner"][0])
+        ok = iv.get("kind") == "DeclRefExpr" and iv["referencedDecl"]["name"] == name
+    elif inc.get("kind") == "CompoundAssignOperator" and inc.get("opcode") == "+=":
+        iv = _unwrap(inc["inner"][0])
+        ok = iv.get("kind") == "DeclRefExpr" and iv["referencedDecl"]["name"] == name and _const(inc["inner"][1]) == 1
+    if not ok or hi - lo > 4096:
+        return None
+    return name, lo, hi
+
+
+def _assigns_var(body, name):
+    for n in _walk(body):
+        if n.get("kind") in ("BinaryOperator", "CompoundAssignOperator") and n.get("opcode", "").endswith("=") and n.get("opcode") not in ("==", "!=", "<=", ">="):
+            t = _unwrap(n["inner"][0])
+            if t.get("kind") == "DeclRefExpr" and t["referencedDecl"]["name"] == name:
+                return True
+        if n.get("kind") == "UnaryOperator" and n.get("opcode") in ("++", "--"):
+            t = _unwrap(n["inner"][0])
+            if t.get("kind") == "DeclRefExpr" and t["referencedDecl"]["name"] == name:
+                return True
+    return False
+
+
+def _indexed_assignments(body):
+    """assignments `V[v] = ...` inside a counting loop over v with constant bounds: the exact element keys `V[c0]` .. `V[c1-1]`
+    (instead of the over-approximation `V[*]`); returns {id of the assignment node: [keys]}"""
+    out = {}
+
+    def rec(n, env):
+        if not isinstance(n, dict):
+            return
+        if n.get("kind") == "ForStmt":
+            r = _loop_range(n)
+            b = n["inner"][4] if len(n.get("inner", [])) == 5 and isinstance(n["inner"][4], dict) else None
+            if r and b is not None and not _assigns_var(b, r[0]):
+                env = dict(env)
+                env[r[0]] = (r[1], r[2])
+        if n.get("kind") == "BinaryOperator" and n.get("opcode") == "=":
+            lhs = _unwrap(n["inner"][0])
+            if lhs.get("kind") == "ArraySubscriptExpr":
+                base = lvalue_key(lhs["inner"][0])
+                idx = _unwrap(lhs["inner"][1])
+                if base and idx.get("kind") == "DeclRefExpr" and idx["referencedDecl"]["name"] in env:
+                    lo, hi = env[idx["referencedDecl"]["name"]]
+                    out[id(n)] = ["%s[%d]" % (base, i) for i in range(lo, hi)]
+        for c in n.get("inner", []) or []:
+            rec(c, env)
+    rec(body, {})
+    return out
+
+
 def direct_effects(body):
     """(assigned keys, callee names, function names whose address is taken/assigned) of one function body"""
     assigned, calls = set(), set()
+    exact = _indexed_assignments(body)
     for n in _walk(body):
         k = n.get("kind")
         if k == "BinaryOperator" and n.get("opcode") == "=":
+            if id(n) in exact:
+                assigned.update(exact[id(n)])
+                continue
             key = lvalue_key(n["inner"][0])
             if key:
                 assigned.add(key)
